@@ -671,9 +671,10 @@ def _attributes(repo, rep):
         mv = sl.get("msgid")
         ok = A.show(sl.get("default")) == "target" and \
             A.show(sl.get("target")) == "target" and \
-            isinstance(mv, A.Alt) and "node.msgid is not None" in mv.test \
-            and "node.msgid" in A.show(mv.a, limit=4) and \
-            A.show(mv.b) == "target"
+            L.decides_on(mv, "node.msgid is not None") \
+            and "node.msgid" in A.show(L.branch(
+                mv, "node.msgid is not None", True), limit=4) and \
+            A.show(L.branch(mv, "node.msgid is not None", False)) == "target"
         detail = A.show(mv, limit=3)[:100]
     rep.check(ok and len(items) >= 2 and items[-1] is fr[0] if fr else False,
               "R10.6", g.qualname, "attribute translation: evaluate the "
